@@ -50,8 +50,36 @@ func callOrigins(p *an.Prog, v ssa.Value) []string {
 		}
 		return false
 	}}
+	// a result merged with the zero values of a helper's error returns (`pass, err := phi(p | ""), phi(nil | e)`): the
+	// ways that carried an error do not reach the use (the caller leaves on the error first)
+	starts := []ssa.Value{v}
+	if ph, ok := an.ResolveCell(v).(*ssa.Phi); ok {
+		for _, in := range ph.Block().Instrs {
+			e, isPhi := in.(*ssa.Phi)
+			if !isPhi {
+				break
+			}
+			if e == ph || !an.IsErrorType(e.Type()) || len(e.Edges) != len(ph.Edges) {
+				continue
+			}
+			var live []ssa.Value
+			for i := range ph.Edges {
+				if i < len(ph.Block().Preds) && p.ValState(e.Edges[i], ph.Block().Preds[i], nil) == an.NonNil {
+					continue
+				}
+				live = append(live, ph.Edges[i])
+			}
+			if len(live) > 0 && len(live) < len(ph.Edges) {
+				starts = live
+			}
+		}
+	}
+	var origins []an.Origin
+	for _, sv := range starts {
+		origins = append(origins, tr.Origins(sv)...)
+	}
 	var out []string
-	for _, o := range tr.Origins(v) {
+	for _, o := range origins {
 		x := o.V
 		if ex, ok := x.(*ssa.Extract); ok {
 			x = ex.Tuple
